@@ -8,7 +8,7 @@ Layers(vx, vy) == << <<<<"x", vx>>, <<"y", vy>>>>, <<>>, <<>>, <<>> >>
 MCData == {Layers(vx, vy) : vx \in {Nil, Bool(FALSE), IntV(1), Str("a"), Arr(<<>>)}, vy \in {IntV(1), Str("a")}}
          \cup {<< <<<<"y", IntV(1)>>>>, <<>>, <<>>, <<>> >>}      \* x undefined
 
-MCCfgs == {[trim |-> "+", suppress |-> s, autoescape |-> FALSE, undef |-> "default"] : s \in BOOLEAN}
+MCCfgs == {Cfg("+", s, FALSE, "default") : s \in BOOLEAN}
 
 X == V("x")
 Y == V("y")
@@ -30,4 +30,5 @@ Cases == {Case(X, <<When(<<I(1)>>, b)>>, els) : b \in SmallBodies, els \in {NoEl
 
 MCPool == Leaves \cup Ifs \cup Cases
 MCPoolAt(i) == MCPool
+MCPartials == <<>>
 =============================================================================
